@@ -33,6 +33,16 @@ impl Interval {
     #[verifier::external_body]
     pub fn reset_after(&mut self, after: Duration) ensures final(self).period@ == old(self).period@, final(self).next_delay@ == after.secs { unimplemented!() }
 }
+impl Interval {
+    #[verifier::external_body]
+    pub fn reset_immediately(&mut self) ensures final(self).period@ == old(self).period@, final(self).next_delay@ == 0 { unimplemented!() }
+}
+pub mod time {
+    use super::*;
+    // tokio::time::sleep outside of select!: the daemon is deaf to signals meanwhile (not modelled as a delay of the next run)
+    #[verifier::external_body]
+    pub fn sleep(d: Duration) { unimplemented!() }
+}
 pub struct AnyhowError;
 pub struct Loop { pub period: Duration }
 
@@ -41,7 +51,7 @@ pub struct Loop { pub period: Duration }
 pub open spec fn cap(period: u64) -> u64 { if period >= 60 { period } else { 60 } }   // "the larger of one minute and the configured period"
 
 impl Loop {
-//@extract id=loop_after_run file=junos-agent/src/task.rs impl=/Loop<T>/ fn=start expr=/match handle_task\(tokio::spawn\(job\)\)\.await/ rules=R2,R17
+//@extract id=loop_after_run file=junos-agent/src/task.rs impl=/Loop<T>/ fn=start expr=/match handle_task\(tokio::spawn\(job\)\)\.await/ rules=R2,R3,R17
 //@+ sub=/handle_task(tokio::spawn(job)).await=>outcome/ post=/backoff/
 //@sig pub fn after_run(&self, outcome: Result<(), AnyhowError>, interval: &mut Interval, mut backoff: Duration) -> (res: Duration)
 //@contract
